@@ -668,7 +668,7 @@ def check_chain(tier, ev):
 
 # ---- staking ------------------------------------------------------------------------------------
 STAKING = {
-    "C14": dict(quick=["quick", "quick4", "dust"], thorough=["quick", "thorough", "dust", "rewards_deep"],
+    "C14": dict(quick=["quick", "quick4", "overlap", "dust"], thorough=["quick", "thorough", "overlap", "dust", "rewards_deep"],
                 focus="panic,ok.delegate,ok.undelegate,ok.redelegate,ok.advance,ok.set_withdraw,bal.delegate,bal.undelegate,"
                       "bal.redelegate,bal.advance,bal.set_withdraw,stake.delegate,stake.undelegate,stake.redelegate,"
                       "stake.advance,stake.withdraw,stake.set_withdraw",
